@@ -28,8 +28,8 @@ use vrp_verif_harness::*;
 fn gen_cases(rng: &mut Rng, tier: Tier) -> Vec<Value> {
     let mut cases = vec![];
     foreign::gen_part1(rng, tier, &mut cases);
-    init::gen(rng, tier, &mut cases);
-    csv::gen(rng, tier, &mut cases);
+    init::gen_cases(rng, tier, &mut cases);
+    csv::gen_cases(rng, tier, &mut cases);
     cases
 }
 
